@@ -5,6 +5,7 @@ from ..facts import AnalysisBroken
 from .. import dnsenc as E
 from ..dnsparse import linear
 from ..interp import normx, nkey, run_all
+from ..prog import PStr, PPtr, HEAP_BASE
 
 UNITS = ["evdns", "evutil"]
 LEVEL = "other"
@@ -93,7 +94,177 @@ def run(ctx, config):
         r.bad("K12:request_new:unchecked:evdns_request_data_build", "%s:%d" % (g.file, g.line), g.name, "a failed build is not detected")
     rules.append(r)
     rules.append(rule_case(P))
+    rules.append(rule_encode(P))
+    rules.append(rule_search_name(P))
     return rules
+
+
+OUTBUF = 8000000
+
+
+def _mem_hook(P, extra=None):
+    def hook(el, e_):
+        n = callee_name(el.e)
+        a = el.e[2]
+        if extra is not None:
+            v = extra(el, e_)
+            if v is not None:
+                return v
+        try:
+            if n in ("memcpy", "__builtin_memcpy", "__builtin___memcpy_chk", "memmove"):
+                d, s_, cnt = evalx(normx(a[0]), e_, P), evalx(normx(a[1]), e_, P), evalx(normx(a[2]), e_, P)
+                if not isinstance(d, int) or not isinstance(cnt, int) or cnt < 0 or cnt > 5000:
+                    e_["#err"] = "memcpy(%r, %r, %r)" % (d, s_, cnt)
+                    return "impure"
+                if isinstance(s_, PStr):
+                    data = [s_.at(k) for k in range(cnt)]
+                elif isinstance(s_, int):
+                    data = [e_[("m", s_ + k)] for k in range(cnt)]
+                elif is_e(strip(a[1]), "addr"):
+                    v = evalx(normx(strip(a[1])[1]), e_, P)
+                    data = list(int(v).to_bytes(cnt, "little"))
+                else:
+                    e_["#err"] = "memcpy source %r" % (s_,)
+                    return "impure"
+                for k, bv in enumerate(data):
+                    e_[("m", d + k)] = bv
+                e_["#hi"] = max(e_.get("#hi", 0), d + cnt)
+                return d
+            if n in ("htons", "__bswap_16"):
+                v = evalx(normx(a[0]), e_, P)
+                return ((v & 0xff) << 8) | ((v >> 8) & 0xff)
+        except (EvalError, KeyError) as ex:
+            e_["#err"] = str(ex)
+            return "impure"
+        return None
+    return hook
+
+
+def wire_name(name):
+    """reference encoding of a textual domain name: -> bytes or None when the name has an empty interior label / a label over 63 bytes / is over 255 bytes"""
+    if len(name) > 255:
+        return None
+    if name == b"":
+        return b"\0"
+    labels = name.split(b".")
+    if labels[-1] == b"":
+        labels = labels[:-1]
+    out = b""
+    for lb in labels:
+        if not (1 <= len(lb) <= 63):
+            return None
+        out += bytes([len(lb)]) + lb
+    return out + b"\0"
+
+
+def rule_encode(P):
+    """dnsname_to_labels evaluated on name forms: valid names give exactly the wire encoding, names with an empty label or an oversized label/name make it fail"""
+    r = Rule("C36-encode", "K6", "dnsname_to_labels: the bytes written are the wire form of the name; a name that has no wire form fails instead of being encoded malformed", floor=14)
+    f = P.fn("dnsname_to_labels")
+    names = [b"a", b"a.b", b"www.example.com", b"a.b.", b"host.", b"x" * 63 + b".com", b"x" * 64 + b".com", b".".join([b"y" * 50] * 5), b".".join([b"y" * 50] * 5) + b".zz",
+             b"a..b", b".a", b"a.b..", b"..", b"a. .b", b"caf\xc3\xa9.example", b"", b"1.2.3.4.in-addr.arpa"]
+    nb = 0
+    for nm in names:
+        env = {"#typed": 1, "#bytemem": 1, f.params[0][0]: OUTBUF, f.params[1][0]: 400, f.params[2][0]: 12, f.params[3][0]: PStr(nm), f.params[4][0]: len(nm), f.params[5][0]: 0}
+        outs = [o for o in run_all(f, (f.entry, 0), env, lambda el: False, P, _mem_hook(P), max_steps=3000) if not (o.kind == "exit" and o.why == "noreturn")]
+        want = wire_name(nm)
+        for o in outs:
+            if o.kind != "ret":
+                r.brk("dnsname_to_labels(%r): %s %s %s" % (nm, o.kind, o.why, o.env.get("#err", "")))
+                return r
+            try:
+                rv = tevalx(normx(o.at.e[1]), o.env, P, f)
+            except EvalError as ex:
+                r.brk("dnsname_to_labels(%r): return value %s" % (nm, ex))
+                return r
+            got = None
+            if isinstance(rv, int) and rv >= 12:
+                got = bytes(o.env.get(("m", OUTBUF + k), 0xEE) for k in range(12, rv))
+            ok = (want is None and isinstance(rv, int) and rv < 0) or (want is not None and got == want)
+            r.inst(nm, {"name": nm.decode("latin-1")[:80], "returns": rv, "wire": got.hex() if got else None, "reference": want.hex() if want else None})
+            if not ok and nb < 6:
+                nb += 1
+                kind = "malformed-name-encoded" if want is None else "wrong-encoding"
+                r.bad("K6:dnsname_to_labels:%s" % kind, "%s:%d" % (f.file, f.line), f.name,
+                      "name %r: returns %r and writes %s; %s" % (nm[:60], rv, got.hex() if got else None,
+                                                                  "the name has an empty or oversized label and has no wire form: the request must fail, the bytes written end the name early and the rest of the packet is garbage" if want is None else "the wire form is %s" % want.hex()))
+    return r
+
+
+def rule_search_name(P):
+    """search_make_new evaluated on abstract strings: the candidate is <base without a trailing dot>.<search domain>"""
+    r = Rule("C36-search-name", "K6", "search-list candidates are the base name (without a trailing dot) joined to the search domain by exactly one dot", floor=6)
+    f = P.fn("search_make_new")
+    NEW = 9000000
+    POST = HEAP_BASE * 20            # PPtr(("n", 0)) + k: the bytes behind the search_domain header
+    nb = 0
+    for base in (b"host", b"host.", b"a.b", b"a.b.", b"x"):
+        for dom in (b"example.com", b"lan"):
+            env = {"#typed": 1, "#bytemem": 1, "event_debug_logging_mask_": 0, f.params[0][0]: PPtr("st"), f.params[1][0]: 0, f.params[2][0]: PStr(base),
+                   ("@", "st", "search_state.head"): PPtr(("n", 0)), ("@", ("n", 0), "search_domain.len"): len(dom), ("@", ("n", 0), "search_domain.next"): 0}
+            for k, bv in enumerate(dom):
+                env[("m", POST + k)] = bv
+
+            def extra(el, e_):
+                n = callee_name(el.e)
+                if n == "event_mm_malloc_":
+                    e_["#cap"] = evalx(normx(el.e[2][0]), e_, P)
+                    return NEW
+                if n in ("evutil_snprintf", "snprintf"):
+                    # the formats a name is assembled with: %s and %.*s and literal characters
+                    a = el.e[2]
+                    try:
+                        d, cap, fmt = evalx(normx(a[0]), e_, P), evalx(normx(a[1]), e_, P), evalx(normx(a[2]), e_, P).text()
+                        args = list(a[3:])
+                        out = b""
+                        i = 0
+                        while i < len(fmt):
+                            if fmt[i:i + 2] == b"%s":
+                                out += evalx(normx(args.pop(0)), e_, P).text()
+                                i += 2
+                            elif fmt[i:i + 4] == b"%.*s":
+                                ln = evalx(normx(args.pop(0)), e_, P)
+                                p = evalx(normx(args.pop(0)), e_, P)
+                                out += (p.text()[:ln] if isinstance(p, PStr) else bytes(e_[("m", p + k)] for k in range(ln)))
+                                i += 4
+                            elif fmt[i:i + 1] == b"%":
+                                return "impure"
+                            else:
+                                out += fmt[i:i + 1]
+                                i += 1
+                        out = out[:max(cap - 1, 0)] + b"\0"
+                        for k, bv in enumerate(out):
+                            e_[("m", d + k)] = bv
+                        return len(out) - 1
+                    except (EvalError, KeyError, IndexError) as ex:
+                        e_["#err"] = str(ex)
+                        return "impure"
+                return None
+            outs = [o for o in run_all(f, (f.entry, 0), env, lambda el: False, P, _mem_hook(P, extra), max_steps=1500) if not (o.kind == "exit" and o.why == "noreturn")]
+            want = base.rstrip(b".") + b"." + dom
+            for o in outs:
+                if o.kind != "ret":
+                    r.brk("search_make_new(%r + %r): %s %s %s" % (base, dom, o.kind, o.why, o.env.get("#err", "")))
+                    return r
+                rv = evalx(normx(o.at.e[1]), o.env, P)
+                got = None
+                if rv == NEW:
+                    bs = []
+                    for k in range(600):
+                        bv = o.env.get(("m", NEW + k))
+                        if bv is None or bv == 0:
+                            break
+                        bs.append(bv)
+                    got = bytes(bs)
+                    cap = o.env.get("#cap")
+                    if cap is not None and len(got) + 1 > cap:
+                        got = b"<overflows its allocation> " + got
+                r.inst((base, dom), {"base": base.decode(), "domain": dom.decode(), "candidate": got.decode("latin-1") if got else None})
+                if got != want and nb < 4:
+                    nb += 1
+                    r.bad("K6:search_make_new:candidate", "%s:%d" % (f.file, f.line), f.name,
+                          "base name %r with search domain %r gives %r; the candidate to try is %r" % (base, dom, got, want))
+    return r
 
 
 def rule_case(P):
